@@ -11,7 +11,7 @@ import json
 
 import numpy as np
 
-from mc.lib import Acc, tree_hash, maxabs
+from mc.lib import Acc, tree_hash, maxabs, on_path
 
 TREES = {
     "T1": {"v": [5], "m": [4, 2], "t": [2, 3, 2]},
@@ -193,6 +193,8 @@ def run_task(task):
     nxt = []
     for s, r, ls, as_, hist in frontier:
       for ev in task["events"]:
+        if not on_path(task, hist + (ev,)):
+          continue
         g = {k: jnp.asarray(v) for k, v in alpha[ev].items()}
         h2 = hist + (ev,)
         case = dict(case0, history=list(h2))
